@@ -81,11 +81,18 @@ pub fn oracle_reverse(row: &registry::MsgRow, m: &Message) -> Result<(), (String
 /// `before`: the builder was used once before (for a message that was refused or built): the number a message is encoded
 /// under must still be its own
 pub fn oracle_reverse_with(row: &registry::MsgRow, m: &Message, before: Option<&Message>) -> Result<(), (String, String)> {
+    match before {
+        Some(d) => oracle_reverse_hist(row, m, &[d]),
+        None => oracle_reverse_hist(row, m, &[]),
+    }
+}
+/// `history`: what the builder was used for before, in order (the message itself may be among them)
+pub fn oracle_reverse_hist(row: &registry::MsgRow, m: &Message, history: &[&Message]) -> Result<(), (String, String)> {
     if m.number() != Some(row.number) {
         return Err(("c14:number-method".into(), format!("variant {} reports number {:?}, table says {}", row.variant, m.number(), row.number)));
     }
     let mut b = MessageBuilder::new();
-    if let Some(d) = before {
+    for d in history {
         let _ = catch(std::panic::AssertUnwindSafe(|| b.build_message(d).map(|f| f.len()).ok()));
     }
     match b.build_message(m) {
@@ -112,7 +119,7 @@ pub fn run(ctx: &Ctx, replay: Option<&J>) -> CheckResult {
         with and without trailing bytes and with zero / random reserved header bits, plus payloads of 0 and 1 byte under all 64 reserved-bit patterns; supported set = rows of the table in src/msg/message.rs (scanned at build \
         time) which must equal the msgNNNN features and the all_msgs list of Cargo.toml; oracle: n not supported => MsgNotSupported{n}; supported \
         => variant of n or Corrupt; L<2 <=> Empty; typed.number()==n; reverse: every variant's default and decoded golden message is encoded \
-        under its own number, also on a builder that was used once before (refused early / late, long frame). all cases non-trivial; distinct = (n, shape, repetition)"
+        under its own number, also on a builder that was used once before (refused early / late, long frame) and on a builder that built the message itself and then another (refused or long) message. all cases non-trivial; distinct = (n, shape, repetition)"
         .to_string();
     let assumptions = vec![
         "the supported set is read from the repository's own table and Cargo.toml, cross-checked against each other".to_string(),
@@ -132,7 +139,11 @@ pub fn run(ctx: &Ctx, replay: Option<&J>) -> CheckResult {
             let n = case["number"].as_u64().unwrap_or(0) as u16;
             let before = case.get("before").and_then(crate::value::Value::from_json).and_then(|t| crate::msggen::value_to_message(&t).ok());
             if let (Some(row), Some(m)) = (MSG_TABLE.iter().find(|r| r.number == n), registry::default_message(n)) {
-                if let Err((sig, msg)) = oracle_reverse_with(row, &m, before.as_ref()) {
+                let r = match (&before, case["sandwich"].as_bool().unwrap_or(false)) {
+                    (Some(d), true) => oracle_reverse_hist(row, &m, &[&m, d]).map_err(|(sig, msg)| (format!("{}(after-itself-and-another-build)", sig), msg)),
+                    _ => oracle_reverse_with(row, &m, before.as_ref()),
+                };
+                if let Err((sig, msg)) = r {
                     vs.push(Violation { property: "C14".into(), signature: sig, message: msg, case: case.clone() });
                 }
             }
@@ -263,19 +274,24 @@ pub fn run(ctx: &Ctx, replay: Option<&J>) -> CheckResult {
                 for di in dist.iter() {
                     let d = &pool[*di];
                     ev.eval();
-                    match oracle_reverse_with(row, &m, Some(&d.msg)) {
+                    // and sandwiched: the message itself, then the disturber, then the message again
+                    ev.eval();
+                    let sandwich = oracle_reverse_hist(row, &m, &[&m, &d.msg]).map_err(|(sig, msg)| (format!("{}(after-itself-and-another-build)", sig), msg));
+                    match oracle_reverse_with(row, &m, Some(&d.msg)).and(sandwich) {
                         Ok(()) => {
-                            ev.distinct_by_construction += 1;
+                            ev.distinct_by_construction += 2;
                             ev.class("reverse/default-on-a-used-builder");
+                            ev.class("reverse/default-built-again-after-another-build");
                         }
-                        Err((sig, _)) if sig == "c14:default-not-encodable" => {}
+                        Err((sig, _)) if sig.starts_with("c14:default-not-encodable") => {}
                         Err((sig, msg)) => {
                             if !vs.iter().any(|v| v.signature == sig) {
+                                let sandwiched = sig.ends_with("(after-itself-and-another-build)");
                                 vs.push(Violation {
                                     property: "C14".into(),
                                     signature: sig,
-                                    message: format!("builder used before for [{}]: {}", d.label, msg),
-                                    case: json!({"kind":"reverse-used-builder","number":row.number,"before":d.tree.to_json()}),
+                                    message: format!("builder used before for [{}]{}: {}", d.label, if sandwiched { " after the message itself" } else { "" }, msg),
+                                    case: json!({"kind":"reverse-used-builder","number":row.number,"before":d.tree.to_json(),"sandwich":sandwiched}),
                                 });
                             }
                         }
